@@ -95,6 +95,8 @@ def _dispatch(ex, st, f, args, kwargs, node):
         if dt is None:
             raise _U("dset on non-dict")
         yield st, V("dict", S.dict_set(dt, box(args[1]), box(args[2])))
+    elif k == "specident" and f.val == "bv_to_int":
+        yield st, V("int", ex.as_int(ex.narrow(st, args[0]) if args[0].ty == "py" else args[0]))
     elif k == "specident" and f.val == "seq_items":
         d = ex.narrow(st, args[0])
         if d.ty in ("list", "tuple"):
@@ -138,6 +140,22 @@ def _dispatch(ex, st, f, args, kwargs, node):
             yield from models.const_dict_lookup(ex, st, base, args[0], default=dflt, raise_keyerror=False)
         else:
             raise _U(f"const dict method {attr}")
+    elif k == "tablefn":
+        mod, table, key = f.val
+        tv = eng.resolve_in_module(mod, table)
+        for kname, fv in tv.val.items():
+            if not (isinstance(fv, Const) and fv.kind == "func"):
+                continue
+            a, st = ex.split(st, key.t == z3.StringVal(kname))
+            if a is not None:
+                yield from repo_call(ex, a, fv.val, None, args, kwargs, node)
+            if st is None:
+                return
+        # no other entries (object invariant of the shape)
+    elif k == "hexdigest":
+        alg, data = f.val
+        eng.used_externals.add("hashlib.new(...).hexdigest")
+        yield st, eng.spec_apply("spec.core", "HASH_HEX", [alg, data])
     elif k == "supermethod":
         ref, fi = f.val
         yield from repo_call(ex, st, fi, ref, args, kwargs, node)
@@ -146,6 +164,12 @@ def _dispatch(ex, st, f, args, kwargs, node):
 
 
 def clause_helper(ex, st, name, args, kwargs, node):
+    if name == "table_key":
+        f = args[0]
+        if isinstance(f, Const) and f.kind == "tablefn":
+            yield st, f.val[2]
+            return
+        raise _U("table_key of a non-table function")
     if name == "implies":
         yield st, V("bool", z3.Implies(S.truthy(args[0]), S.truthy(args[1])))
         return
